@@ -472,6 +472,31 @@ def check(ctx):
     if n8 < 1:
         raise AnalysisError('C02.R8 found only %d children named after their type' % n8)
 
+    # ---- R9: XML 1.0 (2.11) turns every CR LF and every lone CR of a document into LF before the application sees the text, and ElementTree.tostring() writes a CR of
+    #      element text as it is (it escapes & < > only).  A string value with a carriage return therefore comes back with a line feed unless the encoder writes the
+    #      character reference &#13; itself or refuses the value.
+    ctx.rule('C02.R9', 'XER: a carriage return in a character string value is written as a character reference (or refused), not left to XML line-end normalisation')
+    xst = model.mod(XER).classes.get('StringType')
+    senc = xst.find_method('encode')[1] if xst is not None and xst.find_method('encode') else None
+    if senc is None:
+        ctx.instance('C02.R9', 'xer.StringType.encode', 'undecided', 'not found', nontrivial=False, file=XER)
+    else:
+        dp9 = [p_ for p_ in flow.param_names(senc) if p_ != 'self'][:1]
+        raw = [a_ for a_ in walk_no_nested(senc) if isinstance(a_, ast.Assign) and any(isinstance(t_, ast.Attribute) and t_.attr == 'text' for t_ in a_.targets)
+               and isinstance(a_.value, ast.Name) and a_.value.id in dp9]
+        handles_cr = any(isinstance(c_, ast.Constant) and isinstance(c_.value, str) and ('\r' in c_.value or '#13' in c_.value or '#xD' in c_.value or '#xd' in c_.value)
+                         for g_ in model.mod(XER).functions.values() for c_ in walk_no_nested(g_)) or \
+            any(isinstance(c_, ast.Constant) and isinstance(c_.value, str) and ('\r' in c_.value or '#13' in c_.value) for k_ in model.mod(XER).classes.values()
+                for g_ in k_.methods.values() if g_.name.startswith('encode') for c_ in walk_no_nested(g_))
+        ok9 = not raw or handles_cr
+        ctx.instance('C02.R9', '%s stores the value as element text unchanged; CR handled somewhere in the encoder: %s' % (Model.qual(senc), handles_cr), 'ok' if ok9 else 'VIOLATION',
+                     node=senc, file=XER)
+        if not ok9:
+            ctx.violation('C02.R9', XER, raw[0], Model.qual(senc),
+                          'the value is placed into element.text as it is and serialised by ElementTree.tostring(), which does not escape a carriage return: an XML reader normalises '
+                          '"\\r\\n" and "\\r" to "\\n" (XML 1.0, 2.11), so UTF8String "a\\r\\nb" decodes as "a\\nb" - the document does not decode to the value that was encoded',
+                          stmt='carriage return in element text')
+
     # ---- R6: a container that skips the per-element conversion for "transparent" element types (a shortcut keyed on isinstance) may do so
     #      only if the conversion of every class that test accepts -- subclasses included -- is the identity
     ctx.rule('C02.R6', 'a pass-through shortcut keyed on isinstance(<element type>, K) covers only classes whose encode/decode are identities (subclasses included)')
